@@ -32,6 +32,34 @@ CHAIN = ['next', 'random_prev', 'parse', 'clone', 'json', 'json_compact', 'from_
          'r.Average']
 
 
+_C = {'t': 'space', 'e': []}
+_SUB = {'t': 'space', 'e': [{'t': 'choices', 'k': 1, 'c': [_C, _C], 'distinct': True, 'sorted': False}]}
+PERM_SHAPES = [
+    # permutation points: distinct, unsorted multi-choices whose k equals the number of candidates
+    {'t': 'space', 'e': [{'t': 'choices', 'k': 3, 'c': [_C, _C, _C], 'distinct': True, 'sorted': False}]},
+    {'t': 'space', 'e': [{'t': 'choices', 'k': 3, 'c': [_SUB, _C, _SUB], 'distinct': True, 'sorted': False, 'name': 'p'}]},
+    {'t': 'space', 'e': [{'t': 'choices', 'k': 2, 'c': [_SUB, _SUB], 'distinct': True, 'sorted': False},
+                         {'t': 'choices', 'k': 3, 'c': [_C, _C, _C], 'distinct': True, 'sorted': False}]},
+]
+EXHAUSTIVE_DOMAINS = {
+    'permutation_chains': '3 shapes with permutation points (with and without sub-spaces under the permuted candidates) x '
+                          '{PMX, Order, Cycle, Swap, from_dict} x seeds 0..3 x 3 starting members (thorough: 24 x 6), each followed by a second operator',
+}
+
+
+def exhaustive(tier):
+  seeds = range(4) if tier == 'quick' else range(24)
+
+  def gen():
+    for shape in PERM_SHAPES:
+      for op in ('r.PMX', 'r.Order', 'r.Cycle', 'm.Swap', 'from_dict'):
+        for sd in seeds:
+          for pick in range(3 if tier == 'quick' else 6):
+            for second in ('from_dict', 'clone'):
+              yield {'shape': shape, 'pick': pick * 7 + sd, 'chain': [[op, sd], [second, sd % 3]]}
+  return {'permutation_chains': gen()}
+
+
 def strategy(tier):
   return st.fixed_dictionaries({
       'shape': genospec.shape_strategy(max_depth=2, floats=True, names=True, max_cands=3, max_k=3, max_elems=2),
